@@ -22,6 +22,13 @@
 (* effect on `held` are those of UpdateResult / GetSTHReply for that       *)
 (* fault: a call that was answered with a cosigned STH has stored it.      *)
 (* Requests may spell the log id differently (field sp).                   *)
+(*                                                                         *)
+(* Replayed signatures.  Callers also offer STHs that carry the signature  *)
+(* bytes of a genuine STH some caller has offered before (field `over` of  *)
+(* the candidate) over another size / root / timestamp, with a proof that  *)
+(* is correct for the forged tree - while other updates, among them the    *)
+(* donor's, may still be in flight.  UpdateResult refuses them whatever    *)
+(* `offered` holds at the linearization point.                             *)
 (***************************************************************************)
 EXTENDS Witness, Json, IOUtils, Integers
 
@@ -33,7 +40,7 @@ VARIABLES l,        \* next line of Trace to consume
           pending,  \* [Callers -> None or the call in flight]
           fwin      \* the logged fault window we are in ("none" outside)
 
-tvars == <<held, cos, hist, last, l, pending, fwin>>
+tvars == <<held, cos, offered, hist, last, l, pending, fwin>>
 
 Idle == [k |-> "idle"]
 
@@ -46,7 +53,9 @@ TraceInit == /\ Init
 Ev(name) == l <= Len(Trace) /\ Trace[l].ev = name
 
 \* JSON objects come back as records; candidates printed by the harness have exactly the spec's fields
-CandOf(j) == IF j.k = "sth" THEN [k |-> "sth", fam |-> j.fam, size |-> j.size, ts |-> j.ts, signer |-> j.signer, idf |-> j.idf]
+OverOf(j) == IF j.k = "sig" THEN [k |-> "sig", fam |-> j.fam, size |-> j.size, ts |-> j.ts, idf |-> j.idf] ELSE None
+CandOf(j) == IF j.k = "sth" THEN [k |-> "sth", fam |-> j.fam, size |-> j.size, ts |-> j.ts, signer |-> j.signer, idf |-> j.idf,
+                                  over |-> OverOf(j.over)]
              ELSE IF j.k = "garbage" THEN Garbage ELSE None
 
 TraceReset ==
@@ -55,6 +64,7 @@ TraceReset ==
   /\ fwin = "none"
   /\ held' = [x \in Logs |-> None]
   /\ cos' = [x \in Logs |-> None]
+  /\ offered' = [x \in Logs |-> {}]
   /\ l' = l + 1
   /\ UNCHANGED <<hist, last, pending, fwin>>
 
@@ -64,14 +74,14 @@ TraceFaultOn ==
   /\ Trace[l].f \in {"commit", "write", "read"}
   /\ fwin' = Trace[l].f
   /\ l' = l + 1
-  /\ UNCHANGED <<held, cos, hist, last, pending>>
+  /\ UNCHANGED <<held, cos, offered, hist, last, pending>>
 
 TraceFaultOff ==
   /\ Ev("FaultOff")
   /\ fwin # "none"
   /\ fwin' = "none"
   /\ l' = l + 1
-  /\ UNCHANGED <<held, cos, hist, last, pending>>
+  /\ UNCHANGED <<held, cos, offered, hist, last, pending>>
 
 TraceInvoke ==
   /\ Ev("Invoke")
@@ -81,7 +91,7 @@ TraceInvoke ==
      /\ pending' = [pending EXCEPT ![e.c] = [k |-> "call", op |-> e.op, log |-> e.log, sp |-> e.sp, cand |-> CandOf(e.cand),
                                              pf |-> e.pf, lin |-> FALSE, reply |-> NoBody]]
   /\ l' = l + 1
-  /\ UNCHANGED <<held, cos, hist, last, fwin>>
+  /\ UNCHANGED <<held, cos, offered, hist, last, fwin>>
 
 \* silent: the call of caller c takes effect, having met fault f
 LinF(c, f) ==
@@ -91,10 +101,11 @@ LinF(c, f) ==
         LET r == UpdateResult(p.log, p.sp, p.cand, p.pf, f) IN
         /\ held' = IF r.store THEN [held EXCEPT ![p.log] = p.cand] ELSE held
         /\ cos' = IF r.reply.kind = "cosigned" THEN [cos EXCEPT ![p.log] = r.reply.sth] ELSE cos
+        /\ offered' = Offer(p.log, p.cand)
         /\ pending' = [pending EXCEPT ![c].lin = TRUE, ![c].reply = r.reply]
      ELSE \* GetSTH
         LET reply == GetSTHReply(p.log, p.sp, f) IN
-        /\ UNCHANGED held
+        /\ UNCHANGED <<held, offered>>
         /\ cos' = IF reply.kind = "cosigned" THEN [cos EXCEPT ![p.log] = reply.sth] ELSE cos
         /\ pending' = [pending EXCEPT ![c].lin = TRUE, ![c].reply = reply]
   /\ UNCHANGED <<hist, last, l, fwin>>
@@ -108,13 +119,14 @@ TraceReturn ==
      /\ pending[e.c].reply = Reply(e.code, e.kind, CandOf(e.sth))
      /\ pending' = [pending EXCEPT ![e.c] = Idle]
   /\ l' = l + 1
-  /\ UNCHANGED <<held, cos, hist, last, fwin>>
+  /\ UNCHANGED <<held, cos, offered, hist, last, fwin>>
 
 TraceNext == TraceReset \/ TraceInvoke \/ TraceReturn \/ TraceFaultOn \/ TraceFaultOff \/ \E c \in Callers : Lin(c)
 
 TraceSpec == TraceInit /\ [][TraceNext]_tvars
 
-\* hist / last are constant here; they would make every linearization order a distinct state
+\* hist / last are constant here; they would make every linearization order a distinct state (and so would
+\* `offered`, which no decision reads)
 TraceView == <<held, cos, l, pending, fwin>>
 
 \* high-water mark of consumed lines (the search takes silent steps, so the diameter is no measure)
